@@ -53,6 +53,15 @@ CHECKS = {
          "get_SCD vs that lag form on every pattern <= 7/10 and random sequences to 300.",
          "Real.sqrt vs float sqrt: compared within 1e-9; the harness takes the square roots (math.sqrt, fsum).",
          "Lean 4 proof over R (Finset sum reindexing) + differential correspondence through exact integer lag sums"),
+ "C09": ("PARTIAL. The pH model is written once, generically over a RealLike class; instantiated with R the Lean theorems prove for every sequence: the "
+         "single pass equals the sum of per-residue Henderson-Hasselbalch fractions; NCPR(pH) is antitone in pH; |NCPR(pH)| <= FCR(pH) <= titratable/N; "
+         "FER = FCR + fP; a pH is rejected iff outside [0,14]; the pI loop terminates (returns or raises) within 221 iterations for ANY charge function; "
+         "any returned pI has |mean charge per titratable residue| <= 0.02; nothing titratable => 7.0. Tie: pKa table, titration classes and the "
+         "half-titration points probed from the live charge_at_pH equal the EMBOSS values. Instantiated with Float the same definitions run in the driver "
+         "and are compared with the real getters on a pH grid and with get_isoelectric_point (tol 1e-9).",
+         "NOT proved: that the loop never takes the raise branch for any composition (needs Lipschitz/limit analysis of the logistic terms); covered by "
+         "running the real code on all multisets of titratable classes up to size 3/5 and extreme compositions (a test, not a theorem). Float vs R: trusted.",
+         "Lean 4 proof over R of a generic model (also executed on Float) + regenerated pKa/class facts + differential correspondence"),
  "C10": ("Lean theorems for every list and window: the code's flank arithmetic gives floor((w-1)/2) leading and floor(w/2) trailing zeros; a profile is "
          "answered iff w <= N and then has exactly N values, entry i+floor((w-1)/2) is the statistic of the window starting at residue i, the flanks are 0; "
          "for w = N the single window value equals the whole-sequence NCPR / FCR / sigma / Uversky hydropathy / group fraction; delta is the mean of the "
@@ -90,6 +99,14 @@ CHECKS = {
          "small files, through parseSeqFile and SequenceParameters(sequenceFile=...).",
          "File decoding (UTF-8, universal newlines) is modelled by splitLines, not verified; non-UTF-8 bytes are out of scope.",
          "Lean 4 proof (iff-characterisation by induction over lines with the loop state generalised) + exhaustive single-corruption correspondence"),
+ "C15": ("Lean theorems: with the invariant CacheOK (a cached delta-max is the true one; a cached permutant is the one a fresh search returns) every "
+         "read-only query preserves the invariant, leaves sequence / phosphosites / palette untouched and returns exactly what it returns on a freshly "
+         "constructed object; lifted by induction to every finite history of (object, query) steps on any number of live objects (history_independent, "
+         "readonly_frame); the shared mutable default group list is unobservable (passing the seven default groups explicitly = default). Queries that "
+         "do not touch the cache are modelled as arbitrary functions of (sequence, sites, palette). Correspondence: every ordered pair of 30 query shapes, "
+         "random histories over 1-3 objects, each call compared with the same call on a brand-new object.",
+         "Defect found and repaired (fix: commit): cached delta-max made get_deltaMax(True) return None. NumPy/matplotlib global state is not modelled.",
+         "Lean 4 proof (invariant + induction over histories) + pairwise-exhaustive and random history differential testing"),
  "C16": ("Lean theorems: one set call appends in first-occurrence order the valid new positions; history theorem: after ANY series of set/clear calls "
          "get_phosphosites is eraseDups(filter valid (requests since the last clear)) (+1), never repeats, only in-range S/T/Y; sequence and palette "
          "never change; phosphosequence has E exactly at the listed positions; kappa-after equals kappa of the phosphosequence (under the C15 cache "
